@@ -29,6 +29,18 @@ THREAD_MUTEX = "Oomd::Stats::thread_mutex_"
 
 
 def run(ctx):
+    # the accept loop ends only with the server: a failed accept() (EMFILE, ECONNABORTED, ...) is logged and retried - no break / return
+    rsk0 = ctx.fn1("Oomd::Stats::runSocket")
+    al = [l for l in loops(rsk0) if l["stmt"] is not None and rsk0.nodes[l["stmt"]]["k"] in ("while", "for", "do") and "statsThreadRunning_" in rsk0.text(rsk0.nodes[l["stmt"]].get("c", -1))]
+    if len(al) != 1:
+        ctx.broken("accept-loop", "anchor", rsk0.loc(), "expected one loop over statsThreadRunning_ in Stats::runSocket")
+    else:
+        ee = [(b_, s_) for b_, s_ in early_exits(rsk0, al[0]) if not rsk0.blocks[s_].get("noreturn")]
+        rets_in = [r_ for r_ in returns(rsk0) if al[0]["stmt"] in list(rsk0.ancestors(r_))]
+        ctx.check(not ee and not rets_in, "accept-loop-ends-only-on-shutdown", "loop-shape (no early exit)", rsk0.loc(al[0]["stmt"]),
+                  "the accept loop runs until the server is stopped",
+                  "the accept loop can be left by break / return (%s): after one failed accept() no later client is ever served - connections pile up in the listen "
+                  "backlog and time out" % ", ".join(sorted({rsk0.loc(rsk0.blocks[b_].get("term", {}).get("stmt", -1)) if rsk0.blocks[b_].get("term") else "block %d" % b_ for b_, _ in ee} | {rsk0.loc(r_) for r_ in rets_in})))
     # locals / parameters the rules below refer to by name (a rename makes the analysis 'broken', never a violation)
     ctx.anchor(ctx.fn1('Oomd::Stats::processMsg'), 'mode', 'num_read', 'byte_buf', 'sockfd', 'root')
     P, cg = ctx.prog, ctx.cg
